@@ -106,6 +106,7 @@ def run_shard(spec, R):
 
     from vf.gen import wass
     from vf.gen.images import rng_for
+    from vf.snapshots import snap
 
     shared = {}
     recorded = []  # boundary record of every distance returned in this shard
@@ -113,6 +114,15 @@ def run_shard(spec, R):
     def solve(method, grid_imgs, l1, mob, weight=None, extra=None, num_iter=8, frontend=False):
         m1, m2 = grid_imgs
         opt = wass.make_options(darsia, method, l1, mob, "pressure", "direct", 0, num_iter, extra)
+        opt_before = snap({k: v for k, v in opt.items() if not callable(v)})
+        try:
+            return _solve(method, m1, m2, opt, weight, frontend)
+        finally:
+            # the options dictionary is the caller's: it may be used for the next computation with other values
+            R.check(snap({k: v for k, v in opt.items() if not callable(v)}) == opt_before, "options_untouched",
+                    lambda: {"method": method, "frontend": frontend, "keys_after": sorted(map(str, opt.keys()))}, group=f"{method}/{frontend}")
+
+    def _solve(method, m1, m2, opt, weight, frontend):
         if frontend:
             out = darsia.wasserstein_distance(m1, m2, "newton" if method == "newton" else "bregman", weight=weight, options=opt)
         else:
